@@ -31,6 +31,9 @@ func verifPanicValOf(name string) any
 func verifSeq() int
 func verifSchedConcurrency() int
 func verifSchedEnqueues() int
+func verifArgLog(k int)
+func verifArgCount(k int) int
+func verifArgSeq(k int) int
 
 // END-DECLS
 
@@ -42,6 +45,22 @@ type C int
 type D int
 type E int
 type F int
+
+// argument wrappers with a visible side effect (C15)
+func argCtx(k int, v context.Context) context.Context { verifArgLog(k); return v }
+func argA(k int, v A) A                               { verifArgLog(k); return v }
+func argE(k int, v E) E                               { verifArgLog(k); return v }
+func argB(k int, v B) B                               { verifArgLog(k); return v }
+func argPD(k int, v *D) *D                            { verifArgLog(k); return v }
+func argI(k int, v int) int                           { verifArgLog(k); return v }
+func argBool(k int, v bool) bool                      { verifArgLog(k); return v }
+func argS(k int, v []A) []A                           { verifArgLog(k); return v }
+func wrapE(err error) E {
+	if err != nil {
+		return 1
+	}
+	return 0
+}
 
 // verifTry runs f and reports whether it panicked.
 func verifTry(f func()) (panicked bool, val any) {
@@ -72,6 +91,7 @@ func S1(c C)
 func P1(a A) bool
 func P2(ctx context.Context, b B) bool
 func T8(b B) (D, error)
+func T9(b B, e E) D
 
 // parallel tasks
 func R1() error
